@@ -145,7 +145,10 @@ def _run(key, args, kind, clause, raises, ensures, RAISED=None, CUSTOM=None):
 # ---------------------------------------------------------------------------------------------------------------
 # witness search for contracts stated with ghost parameters
 # ---------------------------------------------------------------------------------------------------------------
-_STR_POOL = ["", "x", "7", "12", "-", "Z", ":", ".", "+", " ", "T", "0", "a:b", "١"]
+_STR_POOL = ["", "x", "7", "12", "-", "Z", ":", ".", "+", " ", "T", "0", "a:b", "١",
+             # a few lexical forms of the XML Schema date / time types (valid and not)
+             "--00", "---00", "--00-10", "--05-00", "--02-30", "--13", "---32", "--12-31Z", "2001", "-2001-05:00", "2001-13",
+             "2001-02-30", "0000-01-01", "24:00:01", "12:60:00", "23:59:59.1234567891", "2001-01-01T24:00:00.1", " P1D ", "PT", "P"]
 _WS_POOL = ["", " ", "\n", "\t ", " \r\n"]
 
 
